@@ -284,8 +284,21 @@ func c07Consumers(src string, ast *parser.ASTNode) string {
 		if err != nil || a2 == nil {
 			panic(fmt.Sprint("ParseWithRuntime with a runtime provider disagrees with Parse: ", err))
 		}
+		// the production entry point returns the SAME tree as Parse (positions included)
+		if ok, msg := ast.Equals(a2, false); !ok {
+			panic("tree of ParseWithRuntime differs from the tree of Parse: " + oneLine(msg))
+		}
 		if a2.Runtime != nil {
 			a2.Runtime.Validate()
+		}
+	}) + c07Try("String/ToJSONObject/ASTFromJSONObject", func() {
+		// the serialisations of a tree walk it as well (helper.go); the JSON form must be readable again
+		_ = ast.String()
+		obj := ast.ToJSONObject()
+		if back, err := parser.ASTFromJSONObject(obj); err != nil || back == nil {
+			panic(fmt.Sprint("ASTFromJSONObject cannot read what ToJSONObject wrote: ", err))
+		} else if ok, msg := ast.Equals(back, true); !ok {
+			panic("JSON round trip changes the tree: " + oneLine(msg))
 		}
 	})
 }
@@ -681,6 +694,13 @@ func c07Tool(args []string) int {
 			fmt.Fprintf(w, "E %d\n", i)
 			w.Flush()
 		}
+		return 0
+	}
+	if len(args) > 1 && args[0] == "casefile" {
+		// print the case line of a source text read from a file
+		b, err := os.ReadFile(args[1])
+		check(err)
+		fmt.Printf("0\t%s\n", c07Payload(string(b)))
 		return 0
 	}
 	if len(args) > 1 && args[0] == "runfile" {
